@@ -404,11 +404,24 @@ def _prince_stdout(ctx, rule):
     return c09.r1_single_stdout_writer(ctx, rule, entry_rel='prince_ling.py', refusals_allowed=True)
 
 
+def _shared_rule(mod, name, **kw):
+    def run(ctx, rule):
+        import importlib
+        return getattr(importlib.import_module('sa.props.' + mod), name)(ctx, rule, **kw)
+    return run
+
+
 def rules(tier):
     return [('C17.R1', r1_size_bound), ('C17.R2', r2_output_swap), ('C17.R3', r3_prince_folder), ('C17.R4', r4_prince_tally),
             ('C17.R6', lambda c, r: c09.r2_pairing(c, r, quals=[PG + '_recursive_guesses'], entries=('prince_ling.py',), floor=4, skip_markov=True)),
             ('C17.R7', c01.r1_heap_order), ('C17.R8', c01.r4_prob_pt_coupling), ('C17.R9', lambda c, r: c02.r1_adoption_kernel(c, r)),
-            ('C17.R10', c04.r2_structural_recursion), ('C17.R11', _mask_insertion), ('C17.R12', c01.r6_loader_order), ('C17.R13', r13_loaded_lists_unfiltered), ('C17.R14', _options_forwarded), ('C17.R15', _encoding_verbatim), ('C17.R16', c01.r9_exact_float_discipline), ('C17.R17', _prince_stdout)] + _loader_bundle() + []
+            ('C17.R10', c04.r2_structural_recursion), ('C17.R11', _mask_insertion), ('C17.R12', c01.r6_loader_order), ('C17.R13', r13_loaded_lists_unfiltered), ('C17.R14', _options_forwarded), ('C17.R15', _encoding_verbatim), ('C17.R16', c01.r9_exact_float_discipline), ('C17.R17', _prince_stdout),
+            # C17-cb: continue -> break in find_children: positions behind an exhausted one get no child
+            ('C17.R18', _shared_rule('c02', 'r5_all_children_pushed')),
+            # C09-ca idea on the PRINCE entry script
+            ('C17.R19', _shared_rule('plumbing', 'no_unflushed_exit')),
+            # --size / --all_lower reach the generator under their own keys
+            ('C17.R20', _shared_rule('plumbing', 'option_round_trip'))] + _loader_bundle() + []
 
 
 META = {
